@@ -43,6 +43,8 @@ def run(ctx):
     lib_py.unused_params(ctx, py, mods=("trees", "stats"), only=ps)
     lib_kind.py_lints(ctx, py, mods=("trees", "stats"), only=ps)
     lib_kind4.sample_row_index(ctx, py)
+    from . import lib_kind2
+    lib_kind2.array_conversion_source(ctx, P)
     lib_kind.py_windows_parity(ctx, py, [("trees", "TreeSequence.genetic_relatedness_matrix")])
     lib_py.ll_positional(ctx, py, P, only=ps)
     lib_module.name_agreement(ctx, P, classes=("TreeSequence", "LdCalculator"), floor=60)
